@@ -49,48 +49,65 @@ def classify(arg):
     return ("other", arg[:80])
 
 
-def check_body(eng, obl, out, kind):
-    ex = eng.executor(opaque_local=c05.OPAQUE, trace={"build_eq_checker"}, slice_bound=1)
+def check_body(eng, obl, out, kind, nv=1, nf=1, keep=None):
+    """every existing, non-ignored field of every variant gets exactly the documented assertion"""
+    ex = eng.executor(opaque_local=c05.OPAQUE, trace={"build_eq_checker"}, slice_bound=max(nv, nf))
     fn = eng.find("build_eq_body")
     pre = [z3.Not(ex.bvar("use_bounds")), ex.ivar("disc(source)", 0, 1) == (0 if kind == "struct" else 1)]
-    base = "source.<Struct>.1.[0]" if kind == "struct" else "source.<Enum>.1.[0].fields.[0]"
+    fields = []  # (base, exists)
     if kind == "struct":
-        exists = ex.ivar("len(source.<Struct>.1)", 0, 1) > 0
+        lf = ex.ivar("len(source.<Struct>.1)", 0, ex.slice_bound)
+        pre.append(lf <= nf)
+        fields = [("source.<Struct>.1.[%d]" % i, lf > i) for i in range(nf)]
     else:
-        exists = z3.And(ex.ivar("len(source.<Enum>.1)", 0, 1) > 0, ex.ivar("len(source.<Enum>.1.[0].fields)", 0, 1) > 0)
+        lv = ex.ivar("len(source.<Enum>.1)", 0, ex.slice_bound)
+        pre.append(lv <= nv)
+        for v in range(nv):
+            lf = ex.ivar("len(source.<Enum>.1.[%d].fields)" % v, 0, ex.slice_bound)
+            pre.append(lf <= nf)
+            fields += [("source.<Enum>.1.[%d].fields.[%d]" % (v, i), z3.And(lv > v, lf > i)) for i in range(nf)]
+    if keep is not None:
+        for base, _ in fields:
+            pre += c05.restrict(FieldAtoms(ex, base), keep)
     res = ex.run(fn, eng.args_for(fn), pre=pre)
-    tag = "build_eq_body[%s 1x1]" % kind
+    tag = "build_eq_body[%s %dx%d%s]" % (kind, nv, nf, "" if keep is None else " free=" + "+".join(sorted(keep)))
     stuck = obl.note_paths(tag, res, ex)
     for r in stuck[:2]:
         out.inconclusive.append("fn=%s reason=%s" % (tag, r.value))
-    fa = FieldAtoms(ex, base)
-    alive = z3.And(exists, z3.Not(fa.ignored("Eq")))
-    want = {
-        ("key", "eq"): z3.And(alive, z3.Not(fa.by("eq")), fa.key("eq")),
-        ("key", "ord"): z3.And(alive, z3.Not(fa.by("eq")), z3.Not(fa.key("eq")), z3.Not(fa.by("ord")), fa.key("ord")),
-        ("field",): z3.And(alive, z3.Not(fa.has_comparator("Eq")), z3.Not(fa.any_custom())),
-    }
-    # `by` is looked at before `key` inside one attribute; eq before ord
-    none_cond = z3.Or(z3.Not(alive), fa.by("eq"), z3.And(z3.Not(fa.key("eq")), fa.by("ord")))
     for r in res:
         if r.kind != "return":
             continue
-        calls = [classify(e[1][0]) for e in r.events if e[0] == "build_eq_checker"]
         if c05.is_err(r):
-            # refusals are C05's subject; here only: nothing was asserted wrongly before the error
-            cond = z3.BoolVal(True)
-        elif len(calls) == 0:
-            cond = none_cond
-        elif len(calls) == 1 and calls[0] in want:
-            cond = want[calls[0]]
-        else:
-            cond = z3.BoolVal(False)
-        obl.check_unsat(ex, tag + ":asserted-component", list(r.pc) + [z3.Not(cond)], info=(kind, fa, exists, calls, ex), keep_smt=True)
+            continue  # refusals are C05's subject
+        conj = []
+        infos = []
+        for base, exists in fields:
+            fa = FieldAtoms(ex, base)
+            alive = z3.And(exists, z3.Not(fa.ignored("Eq")))
+            want = {
+                ("key", "eq"): z3.And(alive, z3.Not(fa.by("eq")), fa.key("eq")),
+                ("key", "ord"): z3.And(alive, z3.Not(fa.by("eq")), z3.Not(fa.key("eq")), z3.Not(fa.by("ord")), fa.key("ord")),
+                ("field",): z3.And(alive, z3.Not(fa.has_comparator("Eq")), z3.Not(fa.any_custom())),
+            }
+            # `by` is looked at before `key` inside one attribute; eq before ord
+            none_cond = z3.Or(z3.Not(alive), fa.by("eq"), z3.And(z3.Not(fa.key("eq")), fa.by("ord")))
+            calls = [classify(e[1][0]) for e in r.events if e[0] == "build_eq_checker" and ("sym:%s." % base in e[1][0] or "sym:%s)" % base in e[1][0] or "sym:%s," % base in e[1][0])]
+            if len(calls) == 0:
+                conj.append(none_cond)
+            elif len(calls) == 1 and calls[0] in want:
+                conj.append(want[calls[0]])
+            else:
+                conj.append(z3.BoolVal(False))
+            infos.append((fa, exists, calls))
+        total_calls = sum(1 for e in r.events if e[0] == "build_eq_checker")
+        if total_calls != sum(len(c) for _, _, c in infos):
+            conj.append(z3.BoolVal(False))  # an assertion on something that is no field of the type
+        obl.check_unsat(ex, tag + ":asserted-component", list(r.pc) + [z3.Not(z3.And(conj))], info=(kind, infos, ex), keep_smt=True)
     e3.coverage_check(ex, obl, tag, [r for r in res if r.kind != "stuck"], pre=pre) if not stuck else None
     if res:
         r = res[len(res) // 2]
         obl.samples.append({"function": tag, "path_condition": [str(c) for c in r.pc][:8], "asserted": [classify(e[1][0]) for e in r.events if e[0] == "build_eq_checker"],
-                            "obligation": "path_condition AND NOT(documented condition for the asserted component) is UNSAT"})
+                            "obligation": "path_condition AND NOT(documented condition for the asserted component of every field) is UNSAT"})
     log("[C17] %s: %d paths" % (tag, len(res)))
 
 
@@ -164,36 +181,56 @@ def replay_failures(obl, out):
         if label.startswith("coverage:"):
             out.broken.append("path conditions do not cover the configuration space: " + label)
             continue
-        kind, fa, exists, calls, ex = info
-        attrs = fa.attrs_from_model(model, with_bounds=False)
-        has = z3.is_true(model.eval(exists, model_completion=True))
-        item = "struct X { %s f0: NotEq }" % " ".join(attrs) if kind == "struct" else "enum X { V0 { %s f0: NotEq } }" % " ".join(attrs)
-        if not has:
-            item = "struct X { }" if kind == "struct" else "enum X { V0 { } }"
+        kind, infos, ex = info
         tv = lambda e: z3.is_true(model.eval(e, model_completion=True))
-        alive = has and not tv(fa.ignored("Eq"))
-        if not alive or tv(fa.by("eq")) or (not tv(fa.key("eq")) and tv(fa.by("ord"))):
-            needle, expected = "_eq (", False
-        elif tv(fa.key("eq")):
-            needle, expected = "_eq (& ((this . f0) . k_eq ()))", True
-        elif tv(fa.key("ord")):
-            needle, expected = "_eq (& ((this . f0) . k_ord ()))", True
+        # rebuild the whole item from the model; the needle is the assertion of the first field whose documented condition fails
+        decls, culprit = [], None
+        for idx, (fa, exists, calls) in enumerate(infos):
+            if not tv(exists):
+                continue
+            attrs = fa.attrs_from_model(model, with_bounds=False)
+            m = re.search(r"\[(\d+)\]\.fields\.\[(\d+)\]$|\.\[(\d+)\]$", fa.base)
+            vi, fi = (int(m.group(1)), int(m.group(2))) if m.group(1) is not None else (0, int(m.group(3)))
+            decls.append((vi, fi, attrs, fa, calls))
+        if kind == "struct":
+            item = "struct X { %s }" % ", ".join("%s f%d: NotEq" % (" ".join(a), fi) for vi, fi, a, _, _ in decls)
+            acc = lambda vi, fi: "(this . f%d)" % fi
         else:
-            needle, expected = "_eq (& ((this . f0)))", True
-        if kind == "enum":
-            needle = needle.replace("(this . f0)", "(* _this_f0)")
-        case = {"property": PID, "kind": "contains", "mode": "attr", "attr": "Eq, PartialEq, Hash, PartialOrd, Ord", "item": item, "needle": needle, "expected": expected,
-                "explain": "MIR path asserts %s for this configuration" % (calls,)}
-        if has and tv(fa.rejects("Eq")):
-            # the documentation refuses this configuration for Eq (a compared component would escape the assertion otherwise)
-            case = {"property": PID, "kind": "reject_trait", "trait": "Eq", "mode": "attr", "attr": case["attr"], "item": item, "expected_reject": True,
-                    "explain": "customised comparison elsewhere while Eq would fall back to the field's own impl: must be refused, MIR path asserts %s" % (calls,)}
+            byv = {}
+            for vi, fi, a, _, _ in decls:
+                byv.setdefault(vi, []).append("%s f%d: NotEq" % (" ".join(a), fi))
+            nvv = (max(byv) + 1) if byv else 1
+            item = "enum X { %s }" % ", ".join("V%d { %s }" % (v, ", ".join(byv.get(v, []))) for v in range(nvv))
+            acc = lambda vi, fi: "(* _this_f%d)" % fi
+        case = None
+        for vi, fi, attrs, fa, calls in decls:
+            alive = not tv(fa.ignored("Eq"))
+            if alive and tv(fa.rejects("Eq")):
+                case = {"property": PID, "kind": "reject_trait", "trait": "Eq", "mode": "attr", "attr": "Eq, PartialEq, Hash, PartialOrd, Ord", "item": item, "expected_reject": True,
+                        "explain": "customised comparison elsewhere while Eq would fall back to the field's own impl: must be refused, MIR path asserts %s" % (calls,)}
+                break
+            if not alive or tv(fa.by("eq")) or (not tv(fa.key("eq")) and tv(fa.by("ord"))):
+                needle, expected, docs = "_eq (& (%s" % acc(vi, fi), False, ()
+            elif tv(fa.key("eq")):
+                needle, expected, docs = "_eq (& (%s . k_eq ()))" % acc(vi, fi), True, ("key", "eq")
+            elif tv(fa.key("ord")):
+                needle, expected, docs = "_eq (& (%s . k_ord ()))" % acc(vi, fi), True, ("key", "ord")
+            else:
+                needle, expected, docs = "_eq (& (%s))" % acc(vi, fi), True, ("field",)
+            got = tuple(calls[0]) if len(calls) == 1 else tuple(calls)
+            if (expected and got != docs) or (not expected and calls):
+                case = {"property": PID, "kind": "contains", "mode": "attr", "attr": "Eq, PartialEq, Hash, PartialOrd, Ord", "item": item, "needle": needle, "expected": expected,
+                        "explain": "MIR path asserts %s for field f%d of variant %d" % (calls, fi, vi)}
+                break
+        if case is None:
+            out.broken.append("failed obligation %s could not be turned into a concrete case: %s" % (label, item))
+            continue
         obs = replay_e3.observe(case)
         n += 1
         path = e3.write_replay(PID, "case%03d" % n, case)
         if case["kind"] == "reject_trait":
             if replay_e3.disagrees(case, obs):
-                out.violation("eq-not-refused|%s|%s" % (kind, " ".join(attrs)), path,
+                out.violation("eq-not-refused|%s|%s" % (kind, common.norm(item)[:80]), path,
                               "derive_ex(Eq) is accepted although the compared value is not the one asserted to be Eq: #[derive_ex(%s)] %s" % (case["attr"], item))
             else:
                 out.broken.append("UNCONFIRMED counterexample for %s: %s" % (label, item))
@@ -201,8 +238,8 @@ def replay_failures(obl, out):
         if "Eq" in obs["rejected_traits"]:
             continue  # Eq itself is refused by the macro: C05's subject
         if replay_e3.disagrees(case, obs):
-            out.violation("asserted-component|%s|%s" % (kind, " ".join(attrs)), path,
-                          "the hidden Eq assertion %s `%s` for: #[derive_ex(%s)] %s" % ("lacks" if expected else "contains", needle, case["attr"], item))
+            out.violation("asserted-component|%s|%s" % (kind, common.norm(item)[:80]), path,
+                          "the hidden Eq assertion %s `%s` for: #[derive_ex(%s)] %s" % ("lacks" if case["expected"] else "contains", case["needle"], case["attr"], item))
         else:
             out.broken.append("UNCONFIRMED counterexample for %s: %s" % (label, item))
         if n >= 6:
@@ -217,6 +254,12 @@ def run(tier):
     try:
         check_body(eng, obl, out, "struct")
         check_body(eng, obl, out, "enum")
+        # several fields / variants: every one of them gets its assertion (free atoms restricted to eq + ord to stay small)
+        check_body(eng, obl, out, "struct", 1, 2, keep={"eq", "ord"})
+        check_body(eng, obl, out, "enum", 2, 1, keep={"eq", "ord"})
+        if tier == "thorough":
+            check_body(eng, obl, out, "enum", 2, 2, keep={"eq"})
+            check_body(eng, obl, out, "struct", 1, 3, keep={"ord"})
         check_helper(eng, obl, out)
         check_placement(eng, obl, out)
         replay_failures(obl, out)
